@@ -173,6 +173,25 @@ func cmdRun(args []string) int {
 	}
 	if wb != "" {
 		wallBudget, _ = time.ParseDuration(wb)
+	} else if *tier == "thorough" {
+		wallBudget = 40 * time.Minute // default: a thorough run ends within about 40 minutes (+ replays)
+	} else {
+		wallBudget = 30 * time.Minute
+	}
+	// number of harness instances this run will execute (to share the wall budget fairly)
+	remaining := 0
+	for _, h := range pc.Harnesses {
+		if (*only != "" && !strings.Contains(h.Func, *only)) || (h.ThoroughOnly && *tier != "thorough") {
+			continue
+		}
+		n := len(h.Instances)
+		if *tier == "quick" && h.QuickInstances != nil {
+			n = len(h.QuickInstances)
+		}
+		if n == 0 {
+			n = 1
+		}
+		remaining += n
 	}
 
 	var reports []harnessReport
@@ -230,11 +249,21 @@ func cmdRun(args []string) int {
 				cfg.CrossCheckPct = 2
 			}
 			if wallBudget > 0 {
+				// an instance may use up to three fair shares of what is left (never less than 20 s),
+				// so that one heavy instance cannot starve the ones after it
 				left := wallBudget - time.Since(t0)
-				if left < 5*time.Second {
-					left = 5 * time.Second
+				share := left * 3 / time.Duration(remaining)
+				if share > left {
+					share = left
 				}
-				cfg.WallBudget = left
+				if share < 20*time.Second {
+					share = 20 * time.Second
+				}
+				cfg.WallBudget = share
+			}
+			remaining--
+			if remaining < 1 {
+				remaining = 1
 			}
 			cfg.Witnesses = 4
 			ex := gosx.NewExplorer(P, f, params, cfg)
